@@ -50,23 +50,17 @@ Print Assumptions C18_rows_labels_ellipsis.
 
 (* ---------------- (b) never fails ---------------- *)
 
-(* Full statement (not provable in any model): for ANY Python object in a cell the renderings
-   complete.  Proved: for every value of the enumerated kinds (null, bool, int, float, Decimal,
-   text of any code points, date, datetime, bytes of any content, dict, interval, list/tuple,
-   other objects rendered through str(), NumPy ints/floats/bools/other scalars, arrays,
-   timedelta64) except a timedelta64 that is NaT or counted in months/years (F-C18-3), the cell
-   formatter returns Ok for every width.  Outside: arbitrary objects whose str() raises. *)
-Theorem C18_formatter_total_partial :
-  forall (c : cell) (w : nat), td_ok (cv c) -> exists t, type_formatter c w = Ok t.
+(* For every value of the kinds the property enumerates (null, bool, int, float, Decimal, text of any
+   code points, date, datetime, bytes of any content, dict, interval, list/tuple, objects rendered
+   through str() such as times, NumPy ints / floats / bools / other scalars, arrays, timedelta64
+   of any unit, NaT included) and every width, the cell formatter returns Ok: no Raise is
+   reachable.  The model receives str(value) / strftime / tolist() texts as data; a value whose own
+   str() raises (an int beyond CPython's int->str digit limit, a user object) cannot be described
+   as a case and is outside every model - the differential run is all there is for those. *)
+Theorem C18_formatter_total :
+  forall (c : cell) (w : nat), exists t, type_formatter c w = Ok t.
 Proof. exact type_formatter_total. Qed.
-Print Assumptions C18_formatter_total_partial.
-
-(* ... and the formatter raises on nothing else. *)
-Theorem C18_formatter_raises_only_on_timedelta64 :
-  forall (c : cell) (w : nat) (e : exn), type_formatter c w = Raise e ->
-  exists is_nat linear ns, cv c = VNpTimedelta is_nat linear ns /\ (is_nat = true \/ linear = false).
-Proof. exact type_formatter_raises. Qed.
-Print Assumptions C18_formatter_raises_only_on_timedelta64.
+Print Assumptions C18_formatter_total.
 
 (* bytes of ANY content (valid UTF-8 or not) format without error (F-C18-2, fixed) *)
 Theorem C18_bytes_any_content_total :
@@ -75,50 +69,33 @@ Theorem C18_bytes_any_content_total :
 Proof. exact blob_cell_total. Qed.
 Print Assumptions C18_bytes_any_content_total.
 
-(* the whole table and str(): Ok whenever no cell is a NaT / month-year timedelta64 *)
-Theorem C18_display_total_partial :
-  forall (f : frame) (cfg : config), 1 <= limit cfg -> cells_ok f -> exists t, ascii_table f cfg = Ok t.
+(* the whole table, for every frame (ragged or not), every limit / width / mode, eager and lazy;
+   str() likewise; markdown is total by its type *)
+Theorem C18_display_total :
+  forall (f : frame) (cfg : config), exists t, ascii_table f cfg = Ok t.
 Proof. exact ascii_table_total. Qed.
-Print Assumptions C18_display_total_partial.
+Print Assumptions C18_display_total.
 
-Theorem C18_str_total_partial :
-  forall (f : frame) (cols : nat), cells_ok f -> exists t, df_str f cols = Ok t.
+Theorem C18_str_total :
+  forall (f : frame) (cols : nat), exists t, df_str f cols = Ok t.
 Proof. exact df_str_total. Qed.
-Print Assumptions C18_str_total_partial.
-
-Theorem C18_display_raises_only_on_timedelta64 :
-  forall (f : frame) (cfg : config) (e : exn), 1 <= limit cfg -> ascii_table f cfg = Raise e ->
-  exists r c is_nat linear ns, In r (rows f) /\ In c r /\
-    cv c = VNpTimedelta is_nat linear ns /\ (is_nat = true \/ linear = false).
-Proof. exact ascii_table_raises. Qed.
-Print Assumptions C18_display_raises_only_on_timedelta64.
-
-(* F-C18-3: a NaT timedelta64 raises ValueError, a month-unit one TypeError *)
-Theorem C18_timedelta64_nat_refuted :
-  exists (c : cell) (w : nat), type_formatter c w = Raise ValueError.
-Proof. eexists; eexists; exact nat_timedelta_raises. Qed.
-Print Assumptions C18_timedelta64_nat_refuted.
-
-Theorem C18_timedelta64_month_refuted :
-  exists (c : cell) (w : nat), type_formatter c w = Raise TypeError.
-Proof. eexists; eexists; exact month_timedelta_raises. Qed.
-Print Assumptions C18_timedelta64_month_refuted.
+Print Assumptions C18_str_total.
 
 (* ---------------- (c) equal printed width ---------------- *)
 
 (* Full statement: for printable-ASCII names, type names and cells, all box lines of the
    OUTPUT have the same printed width <= display width.
    Proved: for every rectangular frame with printable-ASCII content, limit, max column width
-   and display width >= 1: every box line handed to colorizer (after the display-width cut) has
-   printed width exactly min(table width, display width), colour tokens counted as zero width
-   as trunc_printable itself counts them.  Missing: (1) that colorizer turns exactly the tokens
-   into zero-width escape sequences / nothing - false when the content contains the six
-   characters \u0001 (F-C18-4, refuted below), otherwise checked by the correspondence and the
-   oracle only; (2) lazily backed head-only rendering of 100 or more rows, where the label
-   outgrows the index column (F-C18-5, refuted below): [frame_guard]. *)
+   and display width >= 1, both modes, eager and lazy: every box line handed to colorizer (after
+   the display-width cut) has printed width exactly min(table width, display width), colour tokens
+   counted as zero width as trunc_printable itself counts them.  Missing (the only reason for
+   _partial): that colorizer turns exactly the tokens into zero-width escape sequences / nothing.
+   That is false when the content contains the six characters \u0001 (known finding F-C18-4,
+   refuted below); for all other content it is checked by the correspondence and the oracle, not
+   proved. *)
 Theorem C18_box_lines_equal_width_partial :
   forall (f : frame) (cfg : config) (cuts : list (lkind * text)),
-  frame_ok f -> pframe f -> 1 <= limit cfg -> 1 <= mcw cfg -> 1 <= dwidth cfg -> frame_guard f cfg ->
+  frame_ok f -> pframe f -> 1 <= limit cfg -> 1 <= mcw cfg -> 1 <= dwidth cfg ->
   cut_lines f cfg = Ok cuts ->
   forall ln, In (KBox, ln) cuts -> pw ln = Nat.min (table_width f cfg) (dwidth cfg).
 Proof. exact box_lines_cut_width. Qed.
@@ -126,7 +103,7 @@ Print Assumptions C18_box_lines_equal_width_partial.
 
 Theorem C18_box_lines_within_display_partial :
   forall (f : frame) (cfg : config) (cuts : list (lkind * text)),
-  frame_ok f -> pframe f -> 1 <= limit cfg -> 1 <= mcw cfg -> 1 <= dwidth cfg -> frame_guard f cfg ->
+  frame_ok f -> pframe f -> 1 <= limit cfg -> 1 <= mcw cfg -> 1 <= dwidth cfg ->
   cut_lines f cfg = Ok cuts ->
   forall l1 l2, In (KBox, l1) cuts -> In (KBox, l2) cuts -> pw l1 = pw l2 /\ pw l1 <= dwidth cfg.
 Proof. exact box_lines_within_display. Qed.
@@ -139,19 +116,11 @@ Theorem C18_trunc_printable_width :
 Proof. exact trunc_printable_width. Qed.
 Print Assumptions C18_trunc_printable_width.
 
-(* F-C18-5: a generator-backed frame of 100 rows rendered head-only with limit 100 has box
-   lines of different printed widths (label "100" in a 2-column index field) *)
-Theorem C18_lazy_head_only_width_refuted :
-  exists (f : frame) (cfg : config), frame_ok f /\ pframe f /\
-  exists cuts l1 l2, cut_lines f cfg = Ok cuts /\ In (KBox, l1) cuts /\ In (KBox, l2) cuts /\ pw l1 <> pw l2.
-Proof. exists f5, cfg5. exact lazy_head_only_overflow. Qed.
-Print Assumptions C18_lazy_head_only_width_refuted.
-
 (* F-C18-4: printable-ASCII content containing \u0001OFFm: the two data lines have the same
    printed width before colorizer and different lengths after it (colour off, so length =
    printed width) *)
 Theorem C18_literal_u0001_width_refuted :
-  exists (f : frame) (cfg : config), frame_ok f /\ pframe f /\ frame_guard f cfg /\
+  exists (f : frame) (cfg : config), frame_ok f /\ pframe f /\
   exists cuts l1 l2, cut_lines f cfg = Ok cuts /\ In (KBox, l1) cuts /\ In (KBox, l2) cuts /\
     pw l1 = pw l2 /\ length (colorizer l1 false) <> length (colorizer l2 false).
 Proof. exists f4, cfg4. exact literal_u0001_breaks_width. Qed.
@@ -160,7 +129,7 @@ Print Assumptions C18_literal_u0001_width_refuted.
 (* ---------------- non-vacuity ---------------- *)
 (* a lazily backed 7-row frame with a typed schema and a list column satisfies every
    hypothesis above; limit 2 shows rows 1 2 ... 6 7 *)
-Example C18_nonvacuous_hypotheses : frame_ok fx /\ pframe fx /\ frame_guard fx cfgx /\ cells_ok fx.
+Example C18_nonvacuous_hypotheses : frame_ok fx /\ pframe fx.
 Proof. exact fx_hypotheses. Qed.
 
 Example C18_nonvacuous_labels :
@@ -174,6 +143,15 @@ Example C18_nonvacuous_widths :
   | Raise _ => False
   end.
 Proof. vm_compute. split; reflexivity. Qed.
+
+(* the former F-C18-3 witnesses (fixed by c25f207): NaT renders as null, 14 months as 1y 2mo *)
+Example C18_timedelta64_nat_is_null :
+  type_formatter (mkcell (VNpTimedelta true true 0%Z) (Some (T "NaT"))) 4 = Ok (tok "NULL" ++ T "null" ++ OFF).
+Proof. exact nat_timedelta_null. Qed.
+Example C18_timedelta64_months :
+  type_formatter (mkcell (VNpTimedelta false false 14%Z) (Some (T "14 months"))) 9
+  = Ok (tok "INTERVAL" ++ T "1y 2mo" ++ OFF ++ OFF ++ T "   ").
+Proof. exact month_timedelta_interval. Qed.
 
 (* the F-C18-2 witness under the decoder without errors="replace" *)
 Example C18_strict_decode_raises : utf8_decode false [255%N; 254%N] = Raise UnicodeDecodeError.
